@@ -149,6 +149,14 @@ CORPUS = {
     "helper-assignment-to-a-name-of-a-module-variable-is-local": S("label = 'ab'\nn = 3\ncount = 0\ndef f():\n    label = 'abcdefg'\n    n = 50\n    return len(label) + n\ndef bump():\n    global count\n    count = count + 1\n"
                                                                    "mon.write(len(label))\nmon.write(f())\nmon.write(len(label) + n)\nmon.write(label)\nbump()\nbump()\nmon.write(count)\n"),
     "tuple-target-assignment-in-helper-is-local": S("lo = 1\nhi = 9\ndef span(a, b):\n    lo, hi = a, b\n    lo, hi = hi, lo\n    return lo - hi\nmon.write(span(2, 7))\nmon.write(lo)\nmon.write(hi)\ndef pair(v):\n    [lo, hi] = [v, v + 1]\n    return lo + hi\nmon.write(pair(4))\nmon.write(lo + hi)\n"),
+    "helper-binds-a-module-string-only-in-nested-blocks": S("msg = 'abc'\ndef show(v):\n    if v > 1:\n        msg = 'hello'\n    else:\n        msg = 'no'\n    mon.write(len(msg))\n    return len(msg) + 1\nmon.write(show(3))\nmon.write(show(0))\nmon.write(len(msg))\nmon.write(msg)\n"
+                                                        "def last(n):\n    for i in range(n):\n        msg = 'wxyz'\n    return len(msg)\nmon.write(last(4))\nmon.write(msg)\n"),
+    "comment-at-column-zero-inside-an-untaken-if": S("c = 0\nif c > 0:\n    mon.write('a1')\n# mon.write('off')\n    mon.write('a2')\nmon.write('a3')\n"),
+    "comment-at-column-zero-inside-a-helper-loop": S("def f(n):\n    t = 0\n    for i in range(n):\n        t = t + i\n    # note at the indentation of the for\n        t = t + 1\n    return t\nmon.write(f(3))\n"),
+    "half-dedented-comment-inside-a-while": S("k = 0\nwhile k < 2:\n    k = k + 1\n  # half-dedented\n    mon.write(k)\nmon.write('done')\n"),
+    "comment-at-column-zero-inside-the-main-loop": S("while True:\n    mon.write('p1')\n# disabled: sleep(99)\n    mon.write('p2')\n    sleep(5)\n"),
+    "comment-at-column-zero-inside-a-for-in-the-main-loop": S("while True:\n    for i in range(2):\n        mon.write(i)\n# was: sleep(1)\n        mon.write(i + 10)\n    sleep(5)\n"),
+    "min-max-with-three-to-six-arguments": S("a = 3\nb = 9\nc = 12\nd = -4\ne = 40\nf = 7\nmon.write(max(a, b, c))\nmon.write(min(a, b, d))\nmon.write(max(a, b, c, d, e))\nmon.write(min(f, e, c, b, d))\nmon.write(max(a, b, c, d, f, e))\nmon.write(min(a, b, c, e, f, d))\n"),
     "chained-comparison-with-local-left-operand": S("def inside(low):\n    return low < abs(low + 1) < 900\nk = 0\nwhile True:\n    low = k + 1\n    if low < abs(k + 5) < 900:\n        mon.write(1)\n    for i in range(2):\n        if i < abs(k + 1) < 50:\n            mon.write(i)\n"
                                                     "    mon.write(inside(k))\n    k = k + 1\n    sleep(5)\n"),
     "main-loop-header-with-trailing-comment": S("k = 0\nwhile True:  # main loop\n    k = k + 1\n    mon.write(k)\n    sleep(5)\n"),
